@@ -176,24 +176,31 @@ Proof.
     apply (pword_quote_loop (has_other s) s (plainp_has_other s) [] k f res H). exact HF.
 Qed.
 
-(* the first byte of Quote(s) is never a blank *)
-Lemma quote_head s : exists c t, quote s = c :: t /\ (c =? 32) = false /\ (c =? 9) = false.
+(* the first byte of Quote(s) is never a blank, and when it is a backslash a single quote follows
+   (never a newline: no line continuation at the start of a quoted word) *)
+Lemma quote_head s : exists c t, quote s = c :: t /\ (c =? 32) = false /\ (c =? 9) = false /\
+  ((c =? 92) = false \/ exists t', t = 39 :: t').
 Proof.
   destruct s as [|c s'] eqn:Es.
-  - exists 39, [39]. repeat split.
+  - exists 39, [39]. repeat split. left. reflexivity.
   - rewrite <- Es. assert (Hne: s <> []) by (rewrite Es; discriminate).
     rewrite (quote_as_loop s Hne). pose proof (plainp_has_other s) as Hpl.
     rewrite Es in *. cbn [quote_loop]. destruct (N.eqb_spec c 39) as [->|Hc].
-    + eexists _, _. cbn [app]. repeat split.
+    + eexists _, _. cbn [app]. repeat split. right. eexists. reflexivity.
     + cbn [negb andb]. destruct (has_other (c :: s')).
-      * eexists _, _. cbn [app]. repeat split.
+      * eexists _, _. cbn [app]. repeat split. left. reflexivity.
       * specialize (Hpl eq_refl). inversion Hpl as [|? ? Hhd ?]; subst.
-        destruct (plain_tests c (Hhd Hc)) as (E32 & E9 & _).
-        eexists _, _. repeat split; assumption.
+        destruct (plain_tests c (Hhd Hc)) as (E32 & E9 & E92 & _).
+        eexists _, _. repeat split; try assumption. left. exact E92.
 Qed.
 
-Lemma skip_blank_head c t : (c =? 32) = false -> (c =? 9) = false -> skip_blank (c :: t) = c :: t.
-Proof. intros E1 E2. cbn [skip_blank]. unfold SP, TAB. rewrite E1, E2. reflexivity. Qed.
+Lemma skip_blank_head c t : (c =? 32) = false -> (c =? 9) = false ->
+  ((c =? 92) = false \/ exists t', t = 39 :: t') -> skip_blank (c :: t) = c :: t.
+Proof.
+  intros E1 E2 E3. cbn [skip_blank]. unfold SP, TAB, BSL, NL. rewrite E1, E2. cbn [orb].
+  destruct E3 as [E3|[t' ->]]; [rewrite E3; reflexivity|].
+  destruct (c =? 92); reflexivity.
+Qed.
 
 Lemma pwords_nil n : pwords (S n) [] = Some [].
 Proof. reflexivity. Qed.
@@ -205,14 +212,15 @@ Proof.
   induction ss as [|s rest IH]; intros n Hn.
   - destruct n; [lia|]. reflexivity.
   - destruct n as [|n]; [lia|].
-    destruct (quote_head s) as (c & t & Eq & E32 & E9).
+    destruct (quote_head s) as (c & t & Eq & E32 & E9 & E92).
     destruct rest as [|s2 rest'].
-    + cbn [join] in *. cbn [pwords]. rewrite Eq, (skip_blank_head c t E32 E9), <- Eq.
+    + cbn [join] in *. cbn [pwords]. rewrite Eq, (skip_blank_head c t E32 E9 E92), <- Eq.
       rewrite <- (app_nil_r (quote s)) at 2.
       rewrite (pword_quote s [] 1 (s, []) eq_refl) by (rewrite ?app_nil_r; lia).
       destruct n; [rewrite Eq in Hn; simpl in Hn; lia|]. reflexivity.
     + change (join (s :: s2 :: rest')) with (quote s ++ [32] ++ join (s2 :: rest')) in *.
-      cbn [pwords]. rewrite Eq at 1. cbn [app]. rewrite (skip_blank_head c _ E32 E9).
+      cbn [pwords]. rewrite Eq at 1. cbn [app].
+      rewrite (skip_blank_head c _ E32 E9) by (destruct E92 as [E|[t' ->]]; [left; exact E|right; eexists; reflexivity]).
       change (c :: t ++ 32 :: join (s2 :: rest')) with ((c :: t) ++ [32] ++ join (s2 :: rest')).
       rewrite <- Eq.
       rewrite (pword_quote s ([32] ++ join (s2 :: rest')) 1 (s, join (s2 :: rest')) eq_refl).
